@@ -505,6 +505,16 @@ pub fn run_cuts(case: &Case, dir: PathBuf) -> Outcome {
         }
         evals += 1;
         stats.inc(if padded { "cuts_padded" } else { "cuts_unpadded" });
+        // the append check below runs on a copy that has not been opened before: repair, append
+        // and close then happen in ONE session (an open in between can heal what a repair left)
+        let do_append = evals % 3 == 0 || matches!(case.fault, Fault::Cut { at: Some(_) });
+        let work2 = dir.join("cut2");
+        if do_append {
+            crate::fsutil::remove_tree(&work2);
+            if crate::fsutil::copy_tree(&work, &work2).is_err() {
+                crate::fsutil::remove_tree(&work2);
+            }
+        }
         // complete batches before the cut
         let m = bounds.iter().filter(|(b, _)| *b <= c).map(|(_, h)| *h).max().unwrap_or(base_idx);
         let want = faults::state_maps(&history[m]);
@@ -518,7 +528,8 @@ pub fn run_cuts(case: &Case, dir: PathBuf) -> Outcome {
             Err(e) => violation = Some(fail(format!("reopen fails: {e}"))),
         }
         // later appends to the repaired journal are recoverable again
-        if violation.is_none() && (evals % 3 == 0 || matches!(case.fault, Fault::Cut { at: Some(_) })) {
+        if violation.is_none() && do_append && work2.exists() {
+            let work = work2.clone();
             let r = std::panic::catch_unwind(std::panic::AssertUnwindSafe(|| -> Result<(), String> {
                 let mut inst = crate::inst::Instance::open_with(&work, &case.cfg, case.cfg.journal_lz4, 0)?;
                 let Some(ks) = history[m].ks.keys().next().copied() else { return Ok(()) };
